@@ -54,6 +54,20 @@ def main(tier: str) -> int:
     slices = {k: U.QUICK_SLICES[k] for k in ("pfx", "quads", "graphs")} if tier == "quick" else U.THOROUGH_SLICES
     res = campaign.run_slices(slices, timeout=1500)
     states, trans, cov = slices_summary(run, res, "C02")
+    # state graph of the serializer with the rdflib term encoder under the Stream (RDF 1.1 slices): every reachable state x every public call,
+    # each real edge judged by TLC (Tier-1 inductive step on the real rows; equality with PyWriter)
+    from .. import writergraph as wg  # noqa: PLC0415
+
+    graph = {}
+    plan = {"flow2": None, "nameq": None, "flow3g": 1, "wg-c18pq": None, "wg-c18g": 1} if tier == "quick" else \
+           {"flow2": None, "nameq": None, "ns": None, "flow3g": 2, "pfx": None, "flow1": None, "flow1q": None, "wg-c18p": None, "wg-c18pq": None, "wg-c18g": 2}
+    for name, body_max in plan.items():
+        st_, gst = wg.compare_slice(run, name, wg.slice_consts(name), body_max, integ="rdflib")
+        if st_ is None:
+            break
+        graph[name] = st_
+        states += gst["states"]
+        trans += gst["transitions"]
     n_beh = 35 if tier == "quick" else 400
     unis = ["r11-triples", "r11-quads", "r11-graphs"]
 
@@ -202,8 +216,8 @@ def main(tier: str) -> int:
             samples.append({"key": key, "statements": len(case["want"]), "bytes": len(case["data"])})
     return run.finish({
         "states": states + jst["states"], "transitions": trans + jst["transitions"], "traces_validated_against_impl": len(traces), "samples": samples,
-        "exhaustive": False, "slices": cov, "cases": len(cases), "undersized_tables_refused": refused,
-        "explanation": "RDF 1.1 behaviours of PyWriter (TLC simulation; default/IRI/bnode graph names, plain/lang/typed objects incl. xsd:string and non-canonical lexical forms) "
+        "exhaustive": False, "slices": cov, "cases": len(cases), "undersized_tables_refused": refused, "state_graph_comparison_rdflib_encoder": graph,
+        "explanation": "state graph of the serializer under the rdflib term encoder (every reachable state x every call of RDF 1.1 slices, Tier-1 inductive step judged by TLC on each real edge); RDF 1.1 behaviours of PyWriter (TLC simulation; default/IRI/bnode graph names, plain/lang/typed objects incl. xsd:string and non-canonical lexical forms) "
                        "are built as rdflib Graph/Dataset and written through Graph.serialize (TripleStream / QuadStream / GraphStream, flat and grouped logical types, delimited and "
                        "non-delimited flat), flat_/grouped_stream_to_file and stream_frames; the bytes are judged by TLC as a SET against what rdflib reports as the input and parsed "
                        "back through Graph.parse / Dataset.parse, parse_jelly_to_graph and parse_jelly_flat; every fifth behaviour is written with prefix/datatype tables smaller "
